@@ -1,7 +1,7 @@
 (* Functions used only by the correspondence check harness/c08.py. *)
 From Coq Require Import ZArith List Bool String.
 From Common Require Import Str Res Cases.
-From Rpc Require Import Json Models Events.
+From Rpc Require Import Json Models Events Values.
 Import ListNotations.
 Open Scope Z_scope.
 
@@ -83,4 +83,18 @@ Definition event_decode_ok (c : event * json) : bool :=
   match decode_event lax_int_corr msg with
   | Ok e' => json_eqb (encode_event true e') (encode_event true e)
   | _ => false
+  end.
+
+Definition eq_case_ok (c : model * model * bool) : bool :=
+  let '(a, b, expected) := c in
+  Bool.eqb (model_eqb a b) expected && Bool.eqb (model_eqb b a) expected && model_eqb a a
+  && (if expected then model_hash a =? model_hash b else true).
+
+Definition replace_case_ok (c : model * bool * list (str * json) * option (option json)) : bool :=
+  let '(m, tag_was_set, upd, expected) := c in
+  match replace lax_int_corr tag_was_set m upd, expected with
+  | Ok m', Some (Some s) => json_equiv_sets (to_json true m') s && model_wf m'
+  | Raise EValidationError, Some None => true
+  | Raise ETypeError, None => true
+  | _, _ => false
   end.
